@@ -7,6 +7,7 @@
    not modelled. *)
 From Coq Require Import List NArith.
 From CV Require Import Base.Str Apath ApathP Entry Valid ValidP Dest DestP.
+From CV Require DestSeqP.
 Local Open Scope N_scope.
 
 (* In the list of entries restore goes on to create, no entry lies strictly beneath an
@@ -103,3 +104,29 @@ Theorem C16_restored_entries_are_there :
        is_file (node_at (d_fs s) (comps (e_apath e))) = true).
 Proof. exact restored_entries_are_there. Qed.
 Print Assumptions C16_restored_entries_are_there.
+
+(* ANY SEQUENCE of restores into one directory -- each with its own listing and its own
+   overwrite flag, the first into whatever tree-like contents the directory has -- makes no
+   call that resolves through a symlink, provided the listings restored WITHOUT overwrite
+   (which only run when the directory is then empty) name valid distinct paths; and the
+   directory is tree-like afterwards.  [restore_seq] threads the destination through the
+   restores and adds up [d_esc]; None = one of them was refused. *)
+Theorem C16_restore_sequence_never_writes_through_a_link :
+  forall (content_of : entry -> bytes) (rs : list (bool * list entry)) (f f' : fs) (n : N),
+    tree_like f ->
+    (forall es, In (false, es) rs ->
+       (forall e, In e es -> is_valid (e_apath e) = true) /\ NoDup (map e_apath es)) ->
+    DestSeqP.restore_seq content_of f rs = Some (f', n) ->
+    n = 0 /\ tree_like f'.
+Proof. exact DestSeqP.restore_sequence_never_resolves_through_a_link. Qed.
+Print Assumptions C16_restore_sequence_never_writes_through_a_link.
+
+(* The history of defect F18: one version restored into an empty directory, ANOTHER restored
+   over it with the overwrite option (any listing at all). *)
+Theorem C16_restore_then_overwrite_never_writes_through_a_link :
+  forall content_A content_B A B f' n,
+    (forall e, In e A -> is_valid (e_apath e) = true) -> NoDup (map e_apath A) ->
+    DestSeqP.restore_seq_gen [] [(content_A, false, A); (content_B, true, B)] = Some (f', n) ->
+    n = 0 /\ tree_like f'.
+Proof. exact DestSeqP.restore_then_overwrite_never_resolves_through_a_link. Qed.
+Print Assumptions C16_restore_then_overwrite_never_writes_through_a_link.
